@@ -16,6 +16,8 @@ def quat_cases(res, cfgs, prop=None):
 def run(res, only=None):
     cfgs = [c for c in CFGS if not only or c in only]
     quat_cases(res, cfgs)
+    # Sum / Product over iterators of 0..3 quaternions: folds from ZERO / IDENTITY, Hamilton products in iteration order (MC_Fold.tla)
+    core.fold_cases(res, [c for c in cfgs if c not in ("assert", "assert-scalar")], ["quat"])
     # code -> spec on arbitrary unit quaternions: Hamilton product and rotation recorded per build, judged by TLC (Trace_Poly.tla)
     core.record_and_validate(res, "poly", [c for c in cfgs if c not in ("sse2-rel", "assert", "assert-scalar")], draws=12 if res.tier == "quick" else 400, module="Trace_Poly",
                              chunks=1 if res.tier == "quick" else 8, expect_kinds=("poly",), ops=["quat_mul", "quat_rot"])
